@@ -34,6 +34,7 @@ import (
 var (
 	ErrInvalidProposalSignature   = errors.New("error invalid proposal signature")
 	ErrInvalidProposalPOLRound    = errors.New("error invalid proposal POL round")
+	ErrProposalTooManyParts       = errors.New("error proposal block has more parts than a block of the maximum size")
 	ErrAddingVote                 = errors.New("error adding vote")
 	ErrSignatureFoundInPastBlocks = errors.New("found signature from the same key")
 
@@ -1821,6 +1822,13 @@ func (cs *State) defaultSetProposal(proposal *types.Proposal) error {
 	if proposal.POLRound < -1 ||
 		(proposal.POLRound >= 0 && proposal.POLRound >= proposal.Round) {
 		return ErrInvalidProposalPOLRound
+	}
+
+	// The number of parts must fit a block of the maximum size: the total only
+	// makes us reserve memory, and it comes from the proposer unchecked.
+	maxBytes := cs.state.ConsensusParams.Block.MaxBytes
+	if int64(proposal.BlockID.PartSetHeader.Total) > (maxBytes-1)/int64(types.BlockPartSizeBytes)+1 {
+		return ErrProposalTooManyParts
 	}
 
 	p := proposal.ToProto()
